@@ -70,13 +70,14 @@ class Gen(object):
     def fields(self, names=V.FIELD_NAMES, exclude=()):
         pb = self.cfg.get("p_bad", 0)
         if pb:
-            return V.gen_fields_bad(self.st, names, pb, 4, exclude=("nid",) + tuple(exclude))
+            return V.gen_fields_bad(self.st, names, pb, 4, exclude=("nid",) + tuple(exclude),
+                                    kinds=self.cfg.get("bad_kinds"), vdepth=max(1, self.vdepth))
         return V.gen_fields(self.st, names, 4, self.vdepth, exclude=("nid",) + tuple(exclude))
 
     def value(self):
         pb = self.cfg.get("p_bad", 0)
         if pb and self.st.chance(pb, "bad?"):
-            return V.gen_bad(self.st)
+            return V.gen_bad(self.st, self.cfg.get("bad_kinds"))
         return V.gen_json(self.st, 0, self.vdepth)
 
     def body(self, depth, nopause=False, in_action=False):
